@@ -10,12 +10,12 @@ def nontrivial_key(cfg, out):
     return (cfg.key(), shape)
 
 
-def run_cases(res, binary, cases, want, extra=None, nontrivial=None, max_fail=12, timeout=180):
+def run_cases(res, binary, cases, want, extra=None, nontrivial=None, max_fail=12, timeout=180, log_bytes=0):
     """cases: list of (scenario, config).  extra(local_result, sc, cfg, sr, hev, wire, out) adds property-specific
     oracles / acceptors."""
     def one(case):
         sc, cfg = case
-        sr = T.run(binary, sc, cfg, timeout=timeout)
+        sr = T.run(binary, sc, cfg, timeout=timeout, log_bytes=log_bytes)
         local = C.Result()
         out, hev, wire = T.analyze(local, sc, cfg, sr, want)
         if extra and sr.verdict == "ok":
@@ -45,8 +45,8 @@ def run_cases(res, binary, cases, want, extra=None, nontrivial=None, max_fail=12
     return res
 
 
-def check_case(binary, sc, cfg, want, extra=None, timeout=180):
-    sr = T.run(binary, sc, cfg, timeout=timeout)
+def check_case(binary, sc, cfg, want, extra=None, timeout=180, log_bytes=0):
+    sr = T.run(binary, sc, cfg, timeout=timeout, log_bytes=log_bytes)
     local = C.Result()
     out, hev, wire = T.analyze(local, sc, cfg, sr, want)
     if extra and sr.verdict == "ok":
@@ -54,7 +54,7 @@ def check_case(binary, sc, cfg, want, extra=None, timeout=180):
     return local, out, sr
 
 
-def shrink(binary, failure, want, extra=None, budget=40):
+def shrink(binary, failure, want, extra=None, budget=40, log_bytes=0):
     """ddmin over the scenario's ops keeping the failure signature; returns the (possibly smaller) failure"""
     sig = failure["signature"]
     sc = T.Scenario.from_json(failure["case"]["scenario"])
@@ -71,7 +71,7 @@ def shrink(binary, failure, want, extra=None, budget=40):
             sc2 = T.Scenario(sc.n, sc.epochs, sc.params, sc.sizes, cand)
             runs += 1
             try:
-                local, out, sr = check_case(binary, sc2, cfg, want, extra)
+                local, out, sr = check_case(binary, sc2, cfg, want, extra, log_bytes=log_bytes)
             except Exception:
                 i += chunk
                 continue
@@ -88,14 +88,14 @@ def shrink(binary, failure, want, extra=None, budget=40):
     return best
 
 
-def replay_case(binary, data, want, extra=None):
+def replay_case(binary, data, want, extra=None, log_bytes=0):
     case = data.get("case") or {}
     if "scenario" not in case:
         print("replay: no executable case recorded:", data.get("no_longer_checks"))
         return False
     sc = T.Scenario.from_json(case["scenario"])
     cfg = T.Config.from_json(case["config"])
-    local, out, sr = check_case(binary, sc, cfg, want, extra)
+    local, out, sr = check_case(binary, sc, cfg, want, extra, log_bytes=log_bytes)
     print("verdict:", sr.verdict, "| blocked:", sr.blocked[:200])
     for f in local.oracle_failures[:5]:
         print("FAIL:", f["signature"], "-", f["what"][:300])
